@@ -10,9 +10,9 @@ structure QInv (s : State) : Prop where
   noDying : ∀ (j : Nat), s.ms[j]? ≠ some .dying
   served0 : inSolve s.p = true → s.served = []
   kLosers : ∀ v w k, s.p = .killLosers v w k → ∀ j, j < k → j ≠ w → ∀ m, s.ms[j]? = some m → dead m = true
-  ret : ∀ v w, s.p = .returned v w → s.ms[w]? = some .serving ∧ s.ctrl = [] ∧ s.reply = [] ∧
+  ret : ∀ v w, s.p = .returned v w → (s.ms[w]? = some .serving ∨ s.ms[w]? = some .crashed) ∧ s.ctrl = [] ∧ s.reply = [] ∧
           (∀ j, j ≠ w → ∀ m, s.ms[j]? = some m → dead m = true) ∧ ∀ x ∈ s.served, x.1 = w
-  await : ∀ v w q, s.p = .awaiting v w q → s.ms[w]? = some .serving ∧
+  await : ∀ v w q, s.p = .awaiting v w q → (s.ms[w]? = some .serving ∨ s.ms[w]? = some .crashed) ∧
           (∀ j, j ≠ w → ∀ m, s.ms[j]? = some m → dead m = true) ∧ (∀ x ∈ s.served, x.1 = w) ∧
           ((s.ctrl = [.query q] ∧ s.reply = []) ∨ (s.ctrl = [] ∧ s.reply = [(w, q)]))
 
@@ -44,12 +44,15 @@ theorem qinv_member_move (s : State) (hi : Inv cfg s) (hq : QInv s) (i : Nat) (a
     (hm : s.ms[i]? = some a) (hlive : dead a = false) (hns : a ≠ .serving) (hb : b ≠ .dying) :
     QInv { s with ms := s.ms.set i b, queue := q } := by
   obtain ⟨noDying, served0, kLosers, ret, await⟩ := hq
-  have hcontra : ∀ (w : Nat), s.ms[w]? = some MSt.serving →
+  have hcontra : ∀ (w : Nat), (s.ms[w]? = some MSt.serving ∨ s.ms[w]? = some MSt.crashed) →
       (∀ j, j ≠ w → ∀ m, s.ms[j]? = some m → dead m = true) → False := by
     intro w hw hd
     have := only_winner hd hm hlive
     subst this
-    rw [hm] at hw; simp at hw; exact hns hw
+    rw [hm] at hw; simp at hw
+    rcases hw with hw | hw
+    · exact hns hw
+    · subst hw; simp [dead] at hlive
   constructor <;> simp only [] <;> try (first | assumption | grind [inSolve])
 
 theorem qinv_istep (hA : cfg.os.killAtomic = true) (s t : State) (hi : Inv cfg s) (hq : QInv s)
@@ -81,6 +84,33 @@ theorem qinv_istep (hA : cfg.os.killAtomic = true) (s t : State) (hi : Inv cfg s
         right; simp [h5.1, h5.2, h6]
       · rw [hc] at h5; simp at h5
   | lateRecv i c cs hna hm hc => rw [hA] at hna; simp at hna
+  | serveCrash i _ hm =>
+    obtain ⟨noDying, served0, kLosers, ret, await⟩ := hq
+    have hw : ∀ (w : Nat), (∀ j, j ≠ w → ∀ m, s.ms[j]? = some m → dead m = true) → i = w :=
+      fun w hd => only_winner hd hm rfl
+    constructor <;> simp only [] <;> try (first | assumption | grind [inSolve])
+    case kLosers =>
+      intro v w k hp j hj hjw m h
+      rcases get_set_cases hm h with ⟨_, h2⟩ | ⟨_, h2⟩
+      · subst h2; rfl
+      · exact kLosers v w k hp j hj hjw m h2
+    case ret =>
+      intro v w hp
+      obtain ⟨h1, h2, h3, h4, h5⟩ := ret v w hp
+      have := hw w h4; subst this
+      refine ⟨Or.inr (get_set_eq hm), h2, h3, ?_, h5⟩
+      intro j hj m h
+      rw [get_set_ne (fun h' => hj h'.symm)] at h; exact h4 j hj m h
+    case await =>
+      intro v w q hp
+      obtain ⟨h1, h4, h5, h6⟩ := await v w q hp
+      have := hw w h4; subst this
+      refine ⟨Or.inr (get_set_eq hm), ?_, h5, h6⟩
+      intro j hj m h
+      rw [get_set_ne (fun h' => hj h'.symm)] at h; exact h4 j hj m h
+  | recvEOF v w q hp hr hd =>
+    obtain ⟨noDying, served0, kLosers, ret, await⟩ := hq
+    constructor <;> simp only [] <;> try (first | assumption | grind [inSolve])
   | getAns i v q hp hq' =>
     obtain ⟨noDying, served0, kLosers, ret, await⟩ := hq
     constructor <;> simp only [] <;> try (first | assumption | grind [inSolve])
@@ -147,6 +177,8 @@ theorem qinv_ustep (s t : State) (hq : QInv s) (h : UStep cfg s t) : QInv t := b
   | ask v w q hp =>
     constructor <;> simp only [] <;> try (first | assumption | grind [inSolve])
   | edit _ => exact ⟨noDying, served0, kLosers, ret, await⟩
+  | askNoSolver _ => exact ⟨noDying, served0, kLosers, ret, await⟩
+  | close _ => constructor <;> simp [inSolve]
 
 /-- both invariants together, in every reachable state (A1 assumed) -/
 theorem qinv_reach (hA : cfg.os.killAtomic = true) (s : State) (h : Reach cfg s) : QInv s := by
